@@ -9,6 +9,8 @@ CONSTANTS
   Vals <- MCVals
   MaxS = 6
   SVals <- MCSVals
+  MaxSteps = 2
+  StepVals <- MCStepVals
   Variant = "axis1"
 INVARIANT StableIsArgMin
 CHECK_DEADLOCK FALSE
